@@ -106,6 +106,9 @@ def run(F, R):
     m4_delegation(F, R)
 
 
+ONLY_OPS = None      # set by other properties that reuse a subset of the per-operation traces
+
+
 def expect(R, rule, inst, where, got, want, what):
     ok = got == want
     R.check(ok, rule, inst, where, '%s: %s' % (what, got), '%s: register trace differs from the specification\n    got:      %s\n    expected: %s' % (what, got, want))
@@ -115,7 +118,7 @@ def expect(R, rule, inst, where, got, want, what):
 def m2_traces(F, R, tadt, hadt, methods, name_of, verfield):
     def tracer(m):
         fid = methods.get(m)
-        if not fid or fid not in F.bodies:
+        if not fid or fid not in F.bodies or (ONLY_OPS is not None and m not in ONLY_OPS):
             return None, None
         sg = supergraph(F, fid)
         return Tracer(F, sg, {hadt}), fid
@@ -211,15 +214,15 @@ def m2_traces(F, R, tadt, hadt, methods, name_of, verfield):
         ops += 1
         for ver in (LEGACY, MODERN):
             bad = None
-            for iv in (0, 1, 2, 3):
+            for iv in (0, 1, 2, 3, 4, 5, 6, 0x80, 0x80000000, 0x80000001, 0xffffffff):
                 r = tr.run({}, fields={verfield: ver}, reads=[iv])
                 R.tables += 1
                 want = [('R', 'InterruptStatus', None)] + ([('W', 'InterruptACK', iv)] if iv else [])
                 if r is None or named(r[0]) != want:
-                    bad = 'status=%d: trace %s, expected %s' % (iv, named(r[0]) if r else None, want)
+                    bad = 'status=%#x: trace %s, expected %s (every pending bit read must be acknowledged, also bits the driver does not know)' % (iv, named(r[0]) if r else None, want)
                     break
-                if r[1] != iv:
-                    bad = 'status=%d returned as %s' % (iv, r[1])
+                if r[1] != (iv & 3):
+                    bad = 'status=%#x returned as %s' % (iv, r[1])
                     break
             R.check(bad is None, 'M2', 'ack_interrupt:v%d' % ver, fn_site(F, fid), 'read status; ack exactly the bits read', 'ack_interrupt: %s' % bad)
     # --- queue_set
